@@ -208,6 +208,19 @@ where
         }
     };
 
+    #[cfg(feature = "verif_hooks")]
+    let auxiliary_polys = {
+        let mut auxiliary_polys = auxiliary_polys;
+        crate::verif_hooks::with_knobs(|k| {
+            if let Some(polys) = auxiliary_polys.as_mut() {
+                for &(p, row, v) in &k.aux_edits {
+                    polys[p].values[row] = F::from_canonical_u64(v);
+                }
+            }
+        });
+        auxiliary_polys
+    };
+
     debug_assert!(
         (stark.uses_lookups() || stark.requires_ctls()) || auxiliary_polys.is_none(),
         "There should be auxiliary polynomials if and only if we have either lookups or require cross-table lookups."
@@ -241,6 +254,12 @@ where
     // This is an expensive check, hence is only run when `debug_assertions` are enabled.
     #[cfg(debug_assertions)]
     {
+        #[cfg(feature = "verif_hooks")]
+        let skip_constraint_check =
+            crate::verif_hooks::with_knobs(|k| k.skip_constraint_check) == Some(true);
+        #[cfg(not(feature = "verif_hooks"))]
+        let skip_constraint_check = false;
+        if !skip_constraint_check {
         check_constraints(
             stark,
             trace_commitment,
@@ -254,6 +273,7 @@ where
             num_lookup_columns,
             &num_ctl_polys,
         );
+        }
     }
 
     let g = F::primitive_root_of_unity(degree_bits);
@@ -394,6 +414,12 @@ where
             quotient_polys
                 .into_par_iter()
                 .flat_map(|mut quotient_poly| {
+                    #[cfg(feature = "verif_hooks")]
+                    if crate::verif_hooks::with_knobs(|k| k.lenient_truncation) == Some(true) {
+                        quotient_poly
+                            .coeffs
+                            .resize(degree * stark.quotient_degree_factor(), F::ZERO);
+                    }
                     quotient_poly
                         .trim_to_len(degree * stark.quotient_degree_factor())
                         .expect(
